@@ -207,6 +207,19 @@ class Summaries:
                 self.edges[b.key].add(cb.key)
             for _, cb in fnitem_mentions(crate, b):
                 self.edges[b.key].add(cb.key)
+        # dispatch through a trait of this crate whose receiver is generic: every impl in the crate is a callee
+        impls = defaultdict(list)
+        for b in crate.bodies:
+            if b.j.get('impl_trait') and b.name:
+                impls[(b.j['impl_trait'], b.name)].append(b.key)
+        for b in crate.bodies:
+            for bb, t in b.calls():
+                c = t['callee']
+                if (c.get('trait') or '').startswith(crate.name + '::') and not (c.get('resolved') in crate.by_key) \
+                        and not (c.get('trait') or '').endswith('ref_cnt::RefCnt'):
+                    # (RefCnt's conversions are primitives of the rules: classified by name, not by body)
+                    for k in impls.get((c['trait'], c.get('name')), ()):
+                        self.edges[b.key].add(k)
         self.sites_by_body = defaultdict(list)
         for s in sites:
             self.sites_by_body[s.body.key].append(s)
@@ -390,3 +403,101 @@ def block_uses_local(b, bb, l):
         if l in set(stmt_locals_used(s)):
             return True
     return l in set(term_locals_used(b.term(bb)))
+
+
+# --------------------------------------------------------------------------------------------
+# condition facts: what is known to hold on a switch edge, looking through `!`, two-variant
+# `otherwise` arms and booleans materialised in match arms (`matches!`, `let ok = match ..`)
+
+TWO_VARIANT_PREFIX = ('std::option::Option<', 'std::result::Result<', 'std::ops::ControlFlow<', '&std::option::Option<',
+                      '&std::result::Result<', '&mut std::option::Option<', '&mut std::result::Result<')
+
+
+def _variant_index(b, t, v, local):
+    if isinstance(v, list):
+        return v[0] if len(v) == 1 else None
+    if v == 'otherwise':
+        explicit = sorted(x for x, _ in t['targets'])
+        ty = b.local_ty(local)
+        if ty.startswith(TWO_VARIANT_PREFIX) and len(explicit) == 1 and explicit[0] in (0, 1):
+            return 1 - explicit[0]
+    return None
+
+
+def edge_facts(b, sbb, succ, depth=0):
+    """facts known on the CFG edge sbb -> succ of a switch:
+       ('bool', def, truth)      def = def_rvalue of a boolean condition (call result or binop)
+       ('variant', local, idx)   discriminant(local) == idx"""
+    if depth > 6:
+        return []
+    t = b.term(sbb)
+    if t['k'] != 'switch':
+        return []
+    v = switch_edge_value(b, sbb, succ)
+    if v is None:
+        return []
+    if t.get('discr_ty') == 'bool':
+        vals = [x for x, _ in t['targets']]
+        if v == 'otherwise':
+            if vals == [0]:
+                truth = True
+            elif vals == [1]:
+                truth = False
+            else:
+                return []
+        elif v == [0]:
+            truth = False
+        elif v == [1]:
+            truth = True
+        else:
+            return []
+        return bool_facts(b, t['discr'], truth, depth)
+    d = def_rvalue(b, t['discr'])
+    if d and d[0] == 'rv' and d[3]['k'] == 'discr':
+        pl = d[3]['place']
+        idx = _variant_index(b, t, v, pl['local']) if not pl['proj'] else (v[0] if isinstance(v, list) and len(v) == 1 else None)
+        if idx is not None and not pl['proj']:
+            return [('variant', pl['local'], idx)]
+    return []
+
+
+def bool_facts(b, op, truth, depth=0):
+    if depth > 6 or op is None:
+        return []
+    d = def_rvalue(b, op)
+    if d is None:
+        return _phi_facts(b, op, truth, depth)
+    if d[0] == 'call':
+        return [('bool', d, truth)]
+    rv = d[3]
+    if rv['k'] == 'unop' and rv['op'] == 'Not':
+        return bool_facts(b, rv['arg'], not truth, depth + 1)
+    if rv['k'] == 'binop':
+        return [('bool', d, truth)]
+    return [('bool', d, truth)]
+
+
+def _phi_facts(b, op, truth, depth):
+    if op['k'] not in ('copy', 'move') or op['place']['proj']:
+        return []
+    defs = [x for x in b.assigns().get(op['place']['local'], []) if not x[4]]
+    consts = []
+    for (bb, i, kind, rv, proj) in defs:
+        if kind != 'stmt' or rv['k'] != 'use' or rv['op']['k'] != 'const' or 'int' not in rv['op']['c']:
+            return []
+        consts.append((bb, bool(rv['op']['c']['int'])))
+    match = [bb for bb, c in consts if c == truth]
+    if len(match) != 1:
+        return []
+    return dominating_facts(b, match[0], depth + 1)
+
+
+def dominating_facts(b, bb, depth=0, unwind=False):
+    out = []
+    for (sbb, succ, val) in dominating_branches(b, bb, unwind=unwind):
+        out.extend(edge_facts(b, sbb, succ, depth))
+    return out
+
+
+def local_from_call(b, local, call_bb):
+    return ('call', call_bb) in b.origins(local)
